@@ -28,6 +28,7 @@ const (
 	kGenerator
 	kAwait
 	kTailCall
+	kStopIteration
 )
 
 const (
@@ -45,6 +46,7 @@ type effect struct {
 	// conditional jumps: pop is popped on both edges; popTaken / popFall additionally on one edge
 	popTaken, popFall, pushFall int
 	flag                        int
+	cmpEq                       int // +1: jumps when the two operands are equal, -1: jumps unless they are equal
 	keep                        bool
 	dyn                         func(fn *vm.BytecodeFunction, in *instr, st []aval) (pop, push int, problem string)
 	val                         func(fn *vm.BytecodeFunction, in *instr) aval
@@ -92,7 +94,7 @@ func callArgc(fn *vm.BytecodeFunction, in *instr) (int, string) {
 }
 
 func intConst(n int) func(*vm.BytecodeFunction, *instr) aval {
-	return func(*vm.BytecodeFunction, *instr) aval { return aval{aInt, int32(n)} }
+	return func(*vm.BytecodeFunction, *instr) aval { return aval{k: aInt, n: int32(n)} }
 }
 
 func topOf(st []aval) aval {
@@ -113,25 +115,25 @@ func init() {
 			if v.IsSmallInt() {
 				n := int64(v.AsSmallInt())
 				if n >= -1<<30 && n < 1<<30 {
-					return aval{aInt, int32(n)}
+					return aval{k: aInt, n: int32(n)}
 				}
 			}
 			if v.IsUndefined() {
-				return aval{aUndef, 0}
+				return aval{k: aUndef, n: 0}
 			}
-			return aval{aVal, int32(vi)}
+			return aval{k: aVal, n: int32(vi)}
 		}
 		return top
 	}, "LOAD_VALUE_0", "LOAD_VALUE_1", "LOAD_VALUE_2", "LOAD_VALUE_3", "LOAD_VALUE8", "LOAD_VALUE16")
-	constant(func(*vm.BytecodeFunction, *instr) aval { return aval{aTrue, 0} }, "TRUE")
-	constant(func(*vm.BytecodeFunction, *instr) aval { return aval{aFalse, 0} }, "FALSE")
-	constant(func(*vm.BytecodeFunction, *instr) aval { return aval{aNil, 0} }, "NIL")
-	constant(func(*vm.BytecodeFunction, *instr) aval { return aval{aUndef, 0} }, "UNDEFINED")
+	constant(func(*vm.BytecodeFunction, *instr) aval { return aval{k: aTrue, n: 0} }, "TRUE")
+	constant(func(*vm.BytecodeFunction, *instr) aval { return aval{k: aFalse, n: 0} }, "FALSE")
+	constant(func(*vm.BytecodeFunction, *instr) aval { return aval{k: aNil, n: 0} }, "NIL")
+	constant(func(*vm.BytecodeFunction, *instr) aval { return aval{k: aUndef, n: 0} }, "UNDEFINED")
 	for i, n := range []string{"INT_M1", "INT_0", "INT_1", "INT_2", "INT_3", "INT_4", "INT_5"} {
 		constant(intConst(i-1), n)
 	}
-	constant(func(fn *vm.BytecodeFunction, in *instr) aval { return aval{aInt, int32(int8(in.operands[0]))} }, "LOAD_INT_8")
-	constant(func(fn *vm.BytecodeFunction, in *instr) aval { return aval{aInt, int32(int16(in.operands[0]))} }, "LOAD_INT_16")
+	constant(func(fn *vm.BytecodeFunction, in *instr) aval { return aval{k: aInt, n: int32(int8(in.operands[0]))} }, "LOAD_INT_8")
+	constant(func(fn *vm.BytecodeFunction, in *instr) aval { return aval{k: aInt, n: int32(int16(in.operands[0]))} }, "LOAD_INT_16")
 	plain(0, 1, "LOAD_CHAR_8", "FLOAT_0", "FLOAT_1", "FLOAT_2", "LOAD_INT64_8", "LOAD_UINT64_8", "LOAD_INT32_8", "LOAD_UINT32_8",
 		"LOAD_INT16_8", "LOAD_UINT16_8", "LOAD_INT8", "LOAD_UINT8", "SELF",
 		"GET_LOCAL_1", "GET_LOCAL_2", "GET_LOCAL_3", "GET_LOCAL_4", "GET_LOCAL8", "GET_LOCAL16", "BOX_LOCAL8", "BOX_LOCAL16",
@@ -239,10 +241,14 @@ func init() {
 	// control flow
 	effects["JUMP"] = effect{kind: kJump}
 	effects["LOOP"] = effect{kind: kJump}
-	for _, n := range []string{"JUMP_UNLESS_LE", "JUMP_UNLESS_LT", "JUMP_UNLESS_GE", "JUMP_UNLESS_GT", "JUMP_UNLESS_EQ", "JUMP_IF_EQ",
-		"JUMP_UNLESS_ILE", "JUMP_UNLESS_ILT", "JUMP_UNLESS_IGE", "JUMP_UNLESS_IGT", "JUMP_UNLESS_IEQ", "JUMP_IF_IEQ"} {
+	for _, n := range []string{"JUMP_UNLESS_LE", "JUMP_UNLESS_LT", "JUMP_UNLESS_GE", "JUMP_UNLESS_GT",
+		"JUMP_UNLESS_ILE", "JUMP_UNLESS_ILT", "JUMP_UNLESS_IGE", "JUMP_UNLESS_IGT"} {
 		effects[n] = effect{kind: kCond, pop: 2}
 	}
+	effects["JUMP_UNLESS_EQ"] = effect{kind: kCond, pop: 2, cmpEq: -1}
+	effects["JUMP_UNLESS_IEQ"] = effect{kind: kCond, pop: 2, cmpEq: -1}
+	effects["JUMP_IF_EQ"] = effect{kind: kCond, pop: 2, cmpEq: 1}
+	effects["JUMP_IF_IEQ"] = effect{kind: kCond, pop: 2, cmpEq: 1}
 	for _, n := range []string{"JUMP_UNLESS", "JUMP_IF", "JUMP_IF_NIL", "JUMP_UNLESS_NIL", "JUMP_UNLESS_UNDEF"} {
 		effects[n] = effect{kind: kCond, pop: 1}
 	}
@@ -268,7 +274,7 @@ func init() {
 	effects["PROMISE"] = effect{kind: kGenerator, pop: 1}
 	// the yielded value is handed to the consumer and is gone when the generator resumes
 	plain(1, 0, "YIELD")
-	// STOP_ITERATION pushes the marker and returns it; on the next resume the frame is as before
-	plain(0, 0, "STOP_ITERATION")
+	// STOP_ITERATION pushes the marker and returns it as an error; the generator is parked at its closing STOP_ITERATION
+	effects["STOP_ITERATION"] = effect{kind: kStopIteration}
 	effects["AWAIT"] = effect{kind: kAwait}
 }
